@@ -155,6 +155,34 @@ def _unwrapped(obj):
     return x
 
 
+def expected_unwrap(obj):
+    """unwrap(): qualifiers (Final/ClassVar), NewTypes and aliases peeled in any nesting -> (annotation, regions);
+    None when a string-valued alias is met (the answer is then a ForwardRef built by the library)"""
+    from typelib.py import compat
+    x, regions, behind = obj, [], False
+    for _ in range(64):
+        og = tp.get_origin(x)
+        if og in (tp.Final, tp.ClassVar):
+            if behind:
+                regions.append("qualifier-behind-wrapper")
+            x = tp.get_args(x)[0]
+            behind = False
+            continue
+        if x is tp.Final or x is tp.ClassVar:
+            regions.append("bare-qualifier")
+            return x, regions
+        if hasattr(x, "__supertype__"):
+            x, behind = x.__supertype__, True
+            continue
+        if isinstance(x, compat.TypeAliasType):
+            if isinstance(x.__value__, str):
+                return None, regions
+            x, behind = x.__value__, True
+            continue
+        return x, regions
+    return None, regions
+
+
 def call2(fname, obj):
     """call twice, caches NOT cleared in between -> (outcome1, outcome2)"""
     from typelib.py import inspection as I
@@ -261,6 +289,16 @@ def check_object(desc, obj, kind):
             fail(fn, "unstable across calls", o2, o1)
         if o1 != ("ok", e):
             fail(fn, "is not the documented name of the class", o1, e)
+    # (1c) unwrap(): the underlying annotation, never an exception
+    eu, ureg = expected_unwrap(obj)
+    if eu is not None or ureg:
+        o1, o2 = call2("unwrap", obj)
+        if not same(o1, o2):
+            fail("unwrap", "unstable across calls", o2, o1, extra_regions=ureg)
+        if o1[0] == "raise":
+            fail("unwrap", "raises inside the domain", o1, eu, extra_regions=ureg)
+        elif eu is not None and not (o1[1] is eu or o1[1] == eu):
+            fail("unwrap", "is not the underlying annotation", o1, eu, extra_regions=ureg)
     # (2) special-form predicates: typing.get_origin / get_args
     if kinds == []:
         og = tp.get_origin(obj)
